@@ -485,3 +485,54 @@ def colloc_probe(p):
             return dict(status="confirmed", failing_input=dict(call="DirectCollocation(degree=%d, scheme=%r) after building the methods of the other degrees and schemes in the same process" % (r["degree"], r["scheme"])),
                         observed=r.get("detail"), expected=r["what"])
     return dict(status="error", detail="no such table obligation: %s" % want)
+
+
+def kernel_probe(p):
+    """C17: rockit.splines.micro_spline.eval_on_knots / bspline_derivative on the real CasADi against the textbook
+    Cox-de Boor recursion (contracts/c17.py, exact rationals), in the SAME call sequence as the engine task (results must
+    not depend on earlier calls)"""
+    import casadi as ca
+    from replay import native_shim
+    native_shim.install()
+    from contracts import c17
+    from rockit.splines.micro_spline import eval_on_knots, bspline_derivative
+    want_name = p.get("obligation", "")
+    subgrids = [[Fraction(1, 2)], [Fraction(1, 3)], [Fraction(1, 3), Fraction(2, 3)], [Fraction(1, 4), Fraction(3, 4)],
+                [Fraction(1, 5), Fraction(1, 2), Fraction(9, 10)], [Fraction(1, 10), Fraction(1, 3), Fraction(2, 3)]]
+    found = {}
+    def cmp(name, B, K, d, pts, call):
+        want = np.array([[float(v) for v in c17.cox_de_boor(K, d, x)] for x in pts]).T
+        B = np.array(B)
+        if d == 0 and want.shape[0] == B.shape[0] + 1:
+            want = want[:-1, :]
+        if B.shape != want.shape or np.max(np.abs(B - want)) > 1e-9:
+            found[name] = dict(call=call, evaluated_at=[str(x) for x in pts], observed=B.tolist(), expected_cox_de_boor=want.tolist())
+    for N in range(1, 6 if p.get("tier") == "thorough" else 5):
+        for d in range(0, 5):
+            for kname, xi in c17.knot_sets(N):
+                if kname == "geometric" and N == 1:
+                    continue
+                K = c17.clamped(xi, d)
+                X = ca.DM([[float(x) for x in xi]])
+                tag = "[N=%d,d=%d,%s]" % (N, d, kname)
+                k, B = eval_on_knots(X, d)
+                cmp("micro_spline:eval_on_knots:ensures:cox-de-boor-on-knots" + tag, B, K, d, list(xi), "eval_on_knots(%s, %d)" % ([str(x) for x in xi], d))
+                for sg in subgrids:
+                    k2, B2 = eval_on_knots(X, d, subgrid=[float(s_) for s_ in sg], include_edges=False)
+                    pts = [xi[i] * (1 - s_) + s_ * xi[i + 1] for i in range(N) for s_ in sg]
+                    name = "micro_spline:eval_on_knots:ensures:cox-de-boor-on-subgrid%s[%s]" % (tag, ",".join(str(s_) for s_ in sg))
+                    cmp(name, B2, K, d, pts, "eval_on_knots(%s, %d, subgrid=%s, include_edges=False) after the earlier calls of this sequence" % ([str(x) for x in xi], d, [str(s_) for s_ in sg]))
+                    kk = np.array(k2).reshape(-1)
+                    if kk.shape[0] != len(pts) or np.max(np.abs(kk - np.array([float(x) for x in pts]))) > 1e-12:
+                        found[name + ":positions"] = dict(observed=kk.tolist(), expected=[float(x) for x in pts])
+                if d >= 1:
+                    C = ca.MX.sym("c", 2, N + d)
+                    D = bspline_derivative(C, X, d)
+                    want = ca.hcat([(C[:, i + 1] - C[:, i]) * (d / float(K[i + d + 1] - K[i + 1])) for i in range(N + d - 1)])
+                    cv = np.random.RandomState(0).uniform(-1, 1, size=(2, N + d))
+                    a_, b_ = ca.Function("F", [C], [D, want])(cv)
+                    if a_.shape != b_.shape or np.max(np.abs(np.array(a_) - np.array(b_))) > 1e-9:
+                        found["micro_spline:bspline_derivative:ensures:analytic-derivative-coefficients" + tag] = dict(coefficients=cv.tolist(), observed=np.array(a_).tolist(), expected=np.array(b_).tolist())
+    if want_name in found:
+        return dict(status="confirmed", failing_input=found[want_name].get("call", want_name), problem=found[want_name], n_mismatches_in_sequence=len(found))
+    return dict(status="not-reproduced", detail="this kernel result agrees with Cox-de Boor natively (%d other mismatches in the sequence)" % len(found))
